@@ -35,6 +35,8 @@ pub enum SEv {
     PeerWuOnLast,
     PeerDataEos(usize),
     PeerGoAway(u32, u32),
+    /// (blocked variant) WINDOW_UPDATE that lets the rest of a response body through
+    PeerWu(usize),
     Drive,
 }
 
@@ -57,10 +59,16 @@ pub struct SWorld {
 pub struct ServerShutdown {
     pub events: Vec<SEv>,
     pub name: &'static str,
+    /// the peer advertises a stream window of 1000 and responses carry a 2 KiB body: a shutdown with responses that are
+    /// finished by the application but held back by flow control
+    pub blocked: bool,
 }
 
 impl ServerShutdown {
     pub fn new(name: &'static str, quick: bool) -> ServerShutdown {
+        Self::new_variant(name, quick, false)
+    }
+    pub fn new_variant(name: &'static str, quick: bool, blocked: bool) -> ServerShutdown {
         let mut ev = vec![SEv::Graceful, SEv::Abrupt(2), SEv::PeerOpenNew, SEv::PeerPingAck, SEv::PeerStrayPingAck, SEv::PeerWuOnLast, SEv::Drive];
         for k in 0..2 {
             ev.push(SEv::RespondEos(k));
@@ -69,6 +77,9 @@ impl ServerShutdown {
             if !quick {
                 ev.push(SEv::DropHandles(k));
             }
+            if blocked {
+                ev.push(SEv::PeerWu(k));
+            }
         }
         for (last, code) in if quick { vec![(1u32, 0u32), (0x7fff_ffff, 0)] } else { vec![(0, 0), (1, 0), (3, 2), (0x7fff_ffff, 0)] } {
             ev.push(SEv::PeerGoAway(last, code));
@@ -76,7 +87,7 @@ impl ServerShutdown {
         if !quick {
             ev.push(SEv::Abrupt(0xdead_beef));
         }
-        ServerShutdown { events: ev, name }
+        ServerShutdown { events: ev, name, blocked }
     }
 }
 
@@ -86,7 +97,8 @@ impl Model for ServerShutdown {
         self.name
     }
     fn cfg(&self) -> T2Cfg {
-        T2Cfg { role: Side::Server, peer_settings: vec![], client: None, server: Some(server::Builder::new()), policy: IoPolicy::default() }
+        let peer_settings = if self.blocked { vec![(wf::setting::INITIAL_WINDOW_SIZE, 1000)] } else { vec![] };
+        T2Cfg { role: Side::Server, peer_settings, client: None, server: Some(server::Builder::new()), policy: IoPolicy::default() }
     }
     fn init(&self, t: &mut T2) -> SWorld {
         t.peer_request(1, "/a", false);
@@ -118,6 +130,7 @@ impl Model for ServerShutdown {
             SEv::PeerStrayPingAck => w.stray_acks < 1,
             SEv::PeerWuOnLast => w.opened.len() > 2 && !w.wu_on_last,
             SEv::PeerDataEos(k) => !w.peer_done[*k] && t.rst_sent(w.opened[*k]).is_empty(),
+            SEv::PeerWu(k) => t.subject_frames().iter().any(|f| f.raw.stream() == w.opened[*k] && f.raw.ty == wf::ty::DATA) && !t.mon.frames.iter().any(|f| f.sender != t.role && f.raw.stream() == w.opened[*k] && f.raw.ty == wf::ty::WINDOW_UPDATE),
             SEv::PeerGoAway(last, _) => w.peer_goaway.map(|(l, _)| *last <= l).unwrap_or(true) && w.peer_goaway.map(|(l, _)| l != *last).unwrap_or(true),
             SEv::Drive => true,
         }
@@ -144,10 +157,18 @@ impl Model for ServerShutdown {
                 let sid = w.opened[k];
                 if let Some(a) = t.accepted.iter_mut().find(|a| a.sid == sid) {
                     if let Some(mut r) = a.respond.take() {
-                        let _ = guarded(&mut panics, "send_response", || r.send_response(simple_response(200), true).map(drop));
+                        if self.blocked {
+                            if let Some(Ok(mut ss)) = guarded(&mut panics, "send_response", || r.send_response(simple_response(200), false)) {
+                                let _ = guarded(&mut panics, "send_data", || ss.send_data(bytes::Bytes::from(vec![0x42u8; 2048]), true));
+                                safe_drop(&mut panics, "SendStream", Some(ss));
+                            }
+                        } else {
+                            let _ = guarded(&mut panics, "send_response", || r.send_response(simple_response(200), true).map(drop));
+                        }
                     }
                 }
             }
+            SEv::PeerWu(k) => t.peer_send(&wf::window_update(w.opened[k], 5000)),
             SEv::Push(k) => {
                 let sid = w.opened[k];
                 let processed = w.peer_goaway_processed;
@@ -302,6 +323,17 @@ impl Model for ServerShutdown {
             safe_drop(&mut panics, "SendStream", a.send.take());
         }
         t.drive(300);
+        if self.blocked {
+            // the peer lets every held-back response body through
+            for k in 0..w.opened.len() {
+                let sid = w.opened[k];
+                let had = t.mon.frames.iter().any(|f| f.sender != t.role && f.raw.stream() == sid && f.raw.ty == wf::ty::WINDOW_UPDATE);
+                if !had && Some(sid) <= final_last && t.rst_sent(sid).is_empty() {
+                    t.peer_send(&wf::window_update(sid, 5000));
+                }
+            }
+            t.drive(300);
+        }
         t.catch_up();
         t.panics.extend(panics);
         if !t.panics.is_empty() {
@@ -321,7 +353,7 @@ impl Model for ServerShutdown {
         }
         // every accepted stream got its response
         for a in &t.accepted {
-            let answered = t.subject_frames().iter().any(|f| f.raw.stream() == a.sid && matches!(&f.parsed, Ok(Parsed::Headers { eos: true, .. }) | Ok(Parsed::RstStream { .. })));
+            let answered = t.subject_frames().iter().any(|f| f.raw.stream() == a.sid && matches!(&f.parsed, Ok(Parsed::Headers { eos: true, .. }) | Ok(Parsed::Data { eos: true, .. }) | Ok(Parsed::RstStream { .. })));
             if !answered {
                 v.push(("C15.in-flight-stream-not-finished".into(), "server".into(), format!("stream {} was accepted before the shutdown but its response never reached the wire", a.sid)));
             }
@@ -794,9 +826,11 @@ fn run_x2(ctx: &Ctx) -> Outcome {
     let m1 = ServerShutdown::new(if quick { "server-shutdown-q" } else { "server-shutdown-t" }, quick);
     let m2 = ClientGoaway::new(if quick { "client-goaway-q" } else { "client-goaway-t" }, quick);
     let maxd = if quick { 8 } else { 11 };
-    let r1 = search(ctx, &m1, "C15", maxd, budget * 0.5, true);
-    let r2 = search(ctx, &m2, "C15", maxd, budget * 0.97, true);
-    fill_outcome(&mut out, &[(m1.name, &r1), (m2.name, &r2)]);
+    let m3 = ServerShutdown::new_variant(if quick { "server-shutdown-blocked-q" } else { "server-shutdown-blocked-t" }, quick, true);
+    let r1 = search(ctx, &m1, "C15", maxd, budget * 0.45, true);
+    let r2 = search(ctx, &m2, "C15", maxd, budget * 0.8, true);
+    let r3 = search(ctx, &m3, "C15", maxd, budget * 1.1, true);
+    fill_outcome(&mut out, &[(m1.name, &r1), (m2.name, &r2), (m3.name, &r3)]);
     out.set("exhaustive", json!(false));
     out.set("alphabet", json!({"server": m1.events.iter().map(|e| format!("{:?}", e)).collect::<Vec<_>>(), "client": m2.events.iter().map(|e| format!("{:?}", e)).collect::<Vec<_>>()}));
     out.set("rule", json!("X2 on T2, both roles. Real server with two accepted streams: graceful_shutdown, abrupt_shutdown(code), respond, push_request, drop handles; peer opens new streams racing the GOAWAY, acknowledges the shutdown PING early / late, ends its requests, sends its own GOAWAY (last 0 / 1 / 3 / 2^31-1, codes 0 / 2). Invariants: emitted last-stream-ids never increase and are never below a stream already returned by accept(); after GOAWAY(L) streams above L are neither surfaced nor answered; push_request fails once the peer's GOAWAY has been processed. Epilogue: graceful shutdown = GOAWAY(2^31-1), PING, after its ACK GOAWAY(last processed), accepted streams answered, transport shut down, Ok(()). Real client with two requests in flight: peer GOAWAY (last 0 / 1 / 3 / 5 / 2^31-1, codes 0 / 2 / 0xdeadbeef, with / without debug data, up to two, never increasing), responses, EOF, new requests, poll_ready. Invariants: no send_request / poll_ready success and no new HEADERS after the GOAWAY was processed; streams above L fail with origin remote / kind GOAWAY / the peer's code and debug data. Epilogue: streams <= L complete, nothing stays pending, the connection result carries the peer's code. T1 half (harness t1-scenarios): real client <-> real server, the server application calls graceful_shutdown / abrupt_shutdown(code) after its n-th accept while further requests race the GOAWAY (also parked behind the concurrency limit, with 7-octet windows, late readers); every execution with <= 2 (thorough 3) deviations in schedule, partial writes / reads at structural offsets and spurious Pendings; the same rules judged from the wire and both API logs"));
@@ -804,6 +838,7 @@ fn run_x2(ctx: &Ctx) -> Outcome {
     let mut vs = VioSet::default();
     vs.merge(r1.agg.vios);
     vs.merge(r2.agg.vios);
+    vs.merge(r3.agg.vios);
     out.violations = vs.into_vec();
     out.guard_nonzero("goaways sent", out.coverage.get("mechanism_counters").and_then(|m| m.get("goaways_sent")).and_then(|v| v.as_u64()).unwrap_or(0));
     out.guard_nonzero("streams failed by peer goaway", out.coverage.get("mechanism_counters").and_then(|m| m.get("streams_failed")).and_then(|v| v.as_u64()).unwrap_or(0));
@@ -836,6 +871,10 @@ pub fn replay(v: &serde_json::Value) -> Option<bool> {
         let n2: &'static str = if quick { "client-goaway-q" } else { "client-goaway-t" };
         if h == format!("x2.{}", n1) {
             return Some(replay_model(&ServerShutdown::new(n1, quick), "C15", v));
+        }
+        let n3: &'static str = if quick { "server-shutdown-blocked-q" } else { "server-shutdown-blocked-t" };
+        if h == format!("x2.{}", n3) {
+            return Some(replay_model(&ServerShutdown::new_variant(n3, quick, true), "C15", v));
         }
         if h == format!("x2.{}", n2) {
             return Some(replay_model(&ClientGoaway::new(n2, quick), "C15", v));
